@@ -272,17 +272,19 @@ class BaseObserver(EventDispatcher):
         return self._emitters
 
     def start(self) -> None:
-        if self.ident is not None:
-            # Refuse before touching the emitters: a second start() must not stop or restart them.
-            error = "threads can only be started once"
-            raise RuntimeError(error)
-        for emitter in self._emitters.copy():
-            try:
-                emitter.start()
-            except Exception:
-                self._remove_emitter(emitter)
-                raise
-        super().start()
+        # Under the registry lock: a concurrent start() or schedule() sees either nothing or everything started.
+        with self._lock:
+            if self.ident is not None:
+                # Refuse before touching the emitters: a second start() must not stop or restart them.
+                error = "threads can only be started once"
+                raise RuntimeError(error)
+            for emitter in self._emitters.copy():
+                try:
+                    emitter.start()
+                except Exception:
+                    self._remove_emitter(emitter)
+                    raise
+            super().start()
 
     def schedule(
         self,
